@@ -80,7 +80,7 @@ REGISTRY = {
     'C18': dict(mods=['C18'], thms=['C18_body', 'C18_empty_body', 'C18_heartbeat', 'C18_protocol_header'],
                 tie=['tieA_envelope_struct_uses', 'tieA_protocol_header_struct_uses', 'tieA_frame_constants', 'tieA_constant_values'], lanes=['frame/frame.marshal.B,frame.marshal.P,frame.marshal.HB,frame.unmarshal.B,frame.unmarshal.P,frame.unmarshal.HB,frame.envelope'], oracles=['c18']),
     'C19': dict(mods=['C19'], thms=['C19_slots_distinct', 'C19_mapping', 'C19_amqp_type'],
-                tie=[], lanes=['ctor'], oracles=['c19']),
+                tie=[], lanes=['ctor', 'mapping'], oracles=['c19']),
     'C20': dict(mods=['C20'], thms=['C20_short', 'C20_parts', 'C20_ranges', 'C20_peek_agrees', 'C20_body_accepted'],
                 tie=['tieA_envelope_struct_uses', 'tieA_frame_constants', 'tieA_constant_values', 'tieA_frame_except_sites'], lanes=['frame/frame.parts,frame.envelope,frame.unmarshal'], oracles=['c20']),
 }
